@@ -354,26 +354,45 @@ def run(ctx):
     for o in obs:
         results[o["res"]["r"]] = results.get(o["res"]["r"], 0) + 1
     types = sorted({o["typ"] for o in obs if o["k"] == "send"})
-    distinct = len({o["wire"] + str(o["msize"]) for o in obs})
+    # non-trivial: the body-level encoder/decoder actually ran on something: a sent message with at least one
+    # non-zero/non-empty field (frame body not all zero), or received bytes on which decode ran (delivered or rejected
+    # as invalid); header-only rejections (size, unknown type) and all-zero messages are counted as trivial
+    def nontrivial(o):
+        if o["k"] == "send":
+            return any(c != "0" for c in o["wire"][14:])
+        return o["res"]["r"] in ("ok", "invalid")
+    distinct = len({o["wire"] + str(o["msize"]) for o in obs if nontrivial(o)})
     small = [o for o in obs if len(o["wire"]) < 200]
+
+    def pick(pred):
+        return next((o for o in small if pred(o)), None)
+    samples = [
+        {"role": "boundary: Rreaddir whose first two entries fill Count exactly (51)", "case": pick(lambda o: o.get("profile") == "exactfit" and o["tag"] == 51)},
+        {"role": "typical: a random Twalk through real send and recv", "case": pick(lambda o: o["k"] == "send" and o["typ"] == 110 and o.get("profile") == "random")},
+        {"role": "malformed: body one byte short of its type's fields, size field consistent", "case": pick(lambda o: o["k"] == "raw" and o.get("what") == "short-body")},
+        {"role": "live connection: a frame written by the real Client", "case": pick(lambda o: str(o.get("profile", "")) == "conn-T")},
+    ]
     ctx.coverage.update({
         "evaluations": len(obs),
         "distinct_nontrivial": distinct,
-        "rule": "per registered type: zero/max/edge/random values by reflection, strings of 255/256/32767/32768/65535 bytes, lists of 16/1000(/65535) "
-                "elements, payloads up to 64 KiB (thorough: 1 MiB), msize boundary; every frame byte overwritten in turn, trailing bytes, truncations, "
-                "bad sizes, all 256 type bytes; distinct = distinct (frame bytes, msize)",
+        "rule": "quick tier, per registered type: zero / max / 2 edge / 2 random values by reflection, max-then-zero into the recycled object, a 256-byte string "
+                "(65535 bytes for 9 types, 255/32767/32768 too for Twalk/Tversion/Rreaddir), lists of 16 and 1000 elements, one 64 KiB payload, msize and msize-1; "
+                "Rreaddir exact-fit corpus; every ~16th..each frame byte overwritten, trailing bytes, short body, short stream, bad sizes, type bytes; "
+                "a real Client/Server session at versions 0 and 7 (thorough: 40 random, all five string lengths for every type, 65535-element lists, 1 MiB payload, "
+                "every byte of 3 frames). distinct_nontrivial = distinct (frame bytes, msize) among cases where a body-level encode/decode ran on non-zero content "
+                "(sent body not all zero; received frame delivered or rejected as invalid)",
         "registered_types": (regobs[0]["types"] if regobs else types),
         "types_exercised": len(types),
         "correspondence": {"cases": len(obs), "mismatches": nm, "by_kind": kinds, "recv_results": results, "model_available": have_gen},
-        "samples": [next((o for o in small if o["k"] == "send" and o["typ"] == 110), small[0]), next((o for o in small if o["k"] == "raw"), small[0])],
+        "samples": [x for x in samples if x["case"] is not None],
     })
 
 
 def search(ctx):
-    """An obligation or the correspondence broke but no observed case failed: thorough budget
-    (more random values per type, every byte of more frames overwritten)."""
-    if ctx.thorough:
+    """An obligation or the correspondence broke but no observed case failed.  The quick harness already aims at
+    every type and every frame byte, so the search is one more quick-tier pass with another seed (other random
+    values, other overwritten bytes) — well inside ctx.search_budget_s; never an escalation to the thorough tier."""
+    if ctx.thorough or getattr(ctx, "search_budget_s", 150) < 60:
         return
-    ctx.tier = "thorough"
-    ctx.thorough = True
+    ctx.seed += 1
     run(ctx)
